@@ -157,6 +157,19 @@ func (s *Session) Exec(line string) (obs string, viol string) {
 		return n
 	}
 	tree := func(i int) *mast.Mast { return s.Trees[int(num(i))] }
+	if t[0] == "cl" && len(t) >= 3 {
+		// a cursor move together with the names it reads from the store
+		s.Store.TakeLoads()
+		o, v := s.Exec(strings.Join(t[1:], " "))
+		names := s.Store.TakeLoads()
+		sort.Strings(names)
+		if v == "" && s.Cache == nil {
+			if c := s.curs[int(num(2))]; c != nil && len(names) > c.height+1 {
+				v = fmt.Sprintf("%s read %d nodes of a tree of height %d", t[1], len(names), c.height)
+			}
+		}
+		return o + " ;" + strings.Join(names, " "), v
+	}
 	if o, v, ok := s.Exec2(t, num); ok {
 		if t[0] == "cwalk" {
 			s.lastCwalk = o
